@@ -161,9 +161,11 @@ Definition always_pairs (bodies : list bodyrec) (dsbl : Z) : list Z :=
         then [signature b1 b2] else []) (zseq n)
     else []) (zseq n).
 
-(* collidable body ids 1..n-1 (bfid) *)
+(* collidable body ids 1..n-1 (bfid); dof-less bodies with a plane were paired with every body by always_pairs and are
+   kept out of the sweep (/repo 3ff575b68: their pairs were added twice and could overflow the pair buffer) *)
 Definition collidable (bodies : list bodyrec) : list Z :=
-  filter (fun b => let r := nth (Z.to_nat b) bodies dbody in canCollide (b_ct r) (b_ca r))
+  filter (fun b => let r := nth (Z.to_nat b) bodies dbody in
+                   negb ((b_dof r =? 0) && b_plane r) && canCollide (b_ct r) (b_ca r))
          (map Z.of_nat (seq 1 (length bodies - 1))).
 
 (* SAP pairs converted to body pairs and filtered *)
